@@ -14,7 +14,7 @@ if src:
     for n in range(1,21):
         for v in variants:
             d='%s/out-C%02d/%s'%(src,n,v)
-            if os.path.exists(d+'/patch.diff'): todo.append(('C%02d%s'%(n,v),d))
+            if os.path.exists(d+'/patch.diff') and os.path.exists(d+'/meta.json') and os.path.exists(d+'/demo_test.go'): todo.append(('C%02d%s'%(n,v),d))
 else:
     for sid in sorted(os.listdir('/verif/seeded')): todo.append((sid,'/verif/seeded/'+sid))
 for sid,d in todo:
